@@ -47,7 +47,9 @@ def expected_op(cfg, r):
     op = {"path": path}
     if r["idx"] >= 0:
         op["elements"] = r["n"]
-    if r["svc"] == "write":
+    if r["svc"] in ("readf", "writef"):
+        op["offset"] = r["off"]
+    if r["svc"] in ("write", "writef"):
         from cpppo.server.enip import parser
         op["method"] = "write"
         op["tag_type"] = getattr(parser, r["typ"]).tag_type
@@ -66,7 +68,7 @@ def check_text(job):
         try:
             got = list(client.parse_operations([j["text"]], fragment=frag))[0]
         except Exception as exc:
-            if frag and j["r"]["svc"] == "write" and (j["r"]["idx"] < 0 or j["r"]["typ"] in ("SSTRING", "STRING")):
+            if frag and j["r"]["svc"] in ("write", "writef") and (j["r"]["idx"] < 0 or j["r"]["typ"] in ("SSTRING", "STRING")):
                 continue              # fragmented writes must spell their element range and have fixed-size elements (documented)
             out.append("parse_operations(%r, fragment=%s) raised %r" % (j["text"], frag, exc))
             continue
